@@ -25,9 +25,9 @@ TEXT = {
           "accepted candidate.",
   "design_ref": "§3 C03",
   "note": "Cryptography, PoW hash, embedded method table and contract-block regeneration are oracle facts; the decision "
-          "model is hand-written and tied by correspondence + the generated check order. Known finding F14: the content "
-          "of descendant blocks of a contract receive is not covered by any recomputed hash (negative witness theorem "
-          "descendant_content_not_pinned + concrete accepted candidates from the monitor).",
+          "model is hand-written and tied by correspondence + the generated check order. Finding F20b (fixed by 48b97c9): altered "
+          "descendant-block content was accepted and stored under the recorded descendant hashes; the monitor produced the "
+          "concrete candidates; now delivered_descendant_content_irrelevant + regenerated_descendants_adopted.",
   "technique": "Lean 4 proof over a decision-procedure model + AST-extracted check order + differential mutation stream + statement monitor",
  },
  "C07": {
